@@ -8,14 +8,15 @@ its strict decoder — the "reference codec" on the wire side. `decodedV` is the
 The *independent schema-driven reference codec* of the property statement lives in the harness
 (Go, sharing no code with thriftrw); it judges the implementation directly on every generated input.
 Partial: invariance of the deserialisers under permutation of a reference encoding's STRUCT
-FIELDS is proved (`field_order_irrelevant`, all three deserialisation paths); invariance under
-permutation of set / map ENTRIES (the result is then equal up to `Equals`, not identical) is
-exercised by the harness, not proved; constants are checked by the harness against its own cast
+FIELDS is proved (`field_order_irrelevant`, all three deserialisation paths), and so is invariance
+under permutation of the items of a SET (`set_order_irrelevant`: the results are `Equals`, for both
+Go representations of sets); the same for MAP entries is exercised by the harness, not proved; constants are checked by the harness against its own cast
 of the IDL literal (no theorem).
 -/
 import ThriftVerif.Schema.WtProofs
 import ThriftVerif.Schema.InvalidProofs
 import ThriftVerif.Schema.PermProofs
+import ThriftVerif.Schema.PermSets
 import ThriftVerif.Schema.LazyRefine
 
 namespace ThriftVerif.Properties.C01
@@ -56,6 +57,28 @@ theorem field_order_irrelevant (env : Env) (fuel : Nat) (n : String)
 /-- Non-vacuity: two fields, swapped. -/
 example : [((1 : UInt16), WValue.i32 5), (2, WValue.bool true)].Perm [(2, WValue.bool true), (1, WValue.i32 5)] ∧
     [((1 : UInt16), WValue.i32 5), (2, WValue.bool true)].Pairwise (fun a b => a.1 ≠ b.1) :=
+  ⟨List.Perm.swap _ _ _, by decide⟩
+
+/-- A reference encoding may list the items of a set in any order: `FromWire` returns `Equals`-equal
+values for every permutation of a wire set's items (items converting to pairwise different decoded
+values; the result in decoded form) — for Go-map-backed and slice-backed sets alike. -/
+theorem set_order_irrelevant (env : Env) (fuel : Nat) (e : Ty) (et : UInt8) (ws ws' : List WValue)
+    (hp : ws.Perm ws') (g : GVal)
+    (h : fromWire env (fuel + 1) (.set e) (.set et ws) = .ok g)
+    (hdec : decodedV env (fuel + 1) (.set e) g = true ∨ g = .nil)
+    (hnd : ∀ gs, mapRes (fromWire env fuel e) ws = .ok gs → e.isPrim = true → pairwiseNot keyEq gs = true) :
+    ∃ g', fromWire env (fuel + 1) (.set e) (.set et ws') = .ok g' ∧
+      equalsG env (fuel + 1) (.set e) g g' = true :=
+  fromWire_set_order env fuel e et ws ws' hp g h hdec hnd
+
+/-- Non-vacuity: a set of three strings in two orders. -/
+example :
+    let ws := [WValue.binary [65], .binary [66], .binary [67]]
+    let ws' := [WValue.binary [66], .binary [65], .binary [67]]
+    ws'.Perm ws ∧
+    (match fromWire {} 3 (.set .string) (.set 11 ws), fromWire {} 3 (.set .string) (.set 11 ws') with
+     | .ok g, .ok g' => decodedV {} 3 (.set .string) g && equalsG {} 3 (.set .string) g g'
+     | _, _ => false) = true :=
   ⟨List.Perm.swap _ _ _, by decide⟩
 
 /-- What the serialisers emit is well-typed Thrift (every container element has the declared
